@@ -97,10 +97,67 @@ fn multi_spelling_spec(r: &mut Rng) -> TreeSpec {
     spec
 }
 
+/// (class, property, type) triples for which the database records NO default although the property serializes
+/// (Player, BasePart, GuiObject ... at the pinned version): the binary writer has to invent the value it fills
+/// the gaps of a column with, and whatever it invents must not depend on the process.
+fn no_default_props() -> &'static Vec<(String, String, VariantType)> {
+    static L: std::sync::OnceLock<Vec<(String, String, VariantType)>> = std::sync::OnceLock::new();
+    L.get_or_init(|| {
+        let db = crate::dbwalk::db();
+        let mut out = vec![];
+        for cname in crate::dbwalk::sorted_class_names(db) {
+            let mut names: Vec<&str> = db.classes[cname].properties.keys().map(|k| k.as_ref()).collect();
+            names.sort();
+            for pn in names {
+                if pn == "Name" {
+                    continue;
+                }
+                if let Some(t) = crate::dbwalk::travel(db, cname, pn) {
+                    if t.back_name == pn && crate::dbwalk::default_for(db, cname, pn).is_none() && crate::gen_dom::type_ok(Fmt::Xml, t.declared_ty) && crate::gen_dom::type_ok(Fmt::Xml, t.wire_ty)
+                        && !matches!(t.declared_ty, VariantType::Ref | VariantType::UniqueId | VariantType::SharedString)
+                    {
+                        out.push((cname.to_owned(), pn.to_owned(), t.declared_ty));
+                    }
+                }
+            }
+        }
+        out
+    })
+}
+
+fn no_default_spec(r: &mut Rng) -> TreeSpec {
+    let g = crate::gen_value::VGen::xml();
+    let mut spec = TreeSpec::new("DataModel");
+    let list = no_default_props();
+    let (class, _, _) = r.pick(list).clone();
+    let props: Vec<&(String, String, VariantType)> = list.iter().filter(|(c, _, _)| *c == class).collect();
+    let n = 2 + r.below(3);
+    for i in 0..n {
+        let id = spec.add(0, &class, &format!("nd{}", i));
+        for (_, pn, ty) in &props {
+            // the first instance carries everything (so every column exists), the others random subsets
+            if i == 0 || r.chance(1, 3) {
+                let v = match ty {
+                    VariantType::Enum => Variant::Enum(Enum::from_u32(r.below(4) as u32)),
+                    t => match g.gen(r, *t) {
+                        Some(v) => v,
+                        None => continue,
+                    },
+                };
+                spec.nodes[id].props.push((pn.clone(), PV::V(v)));
+            }
+        }
+    }
+    spec
+}
+
 fn case(rep: &mut Report, seed: u64, index: u64, table: &mut BTreeMap<String, String>) {
     let mut r = Rng::derive(seed, "c07", index);
     let multi = index % 3 == 0;
-    let spec = if multi {
+    let spec = if index % 8 == 5 && !no_default_props().is_empty() {
+        rep.count("cases.class-without-database-defaults");
+        no_default_spec(&mut r)
+    } else if multi {
         multi_spelling_spec(&mut r)
     } else {
         let mut gen = DomGen::xml();
